@@ -1079,12 +1079,12 @@ pub fn run(cfg: &Cfg) -> i32 {
         "error(str:no-ws-after)", "error(bits:unterminated)", "error(bits:bad-char)", "error(comment:unterminated)",
     ] {
         if tot.cover.get(&format!("expected {}", c)) == 0 {
-            machinery_error(&format!("vacuous: C16 never expected token class {}", c));
+            vacuous(&format!("vacuous: C16 never expected token class {}", c));
         }
     }
     for c in ["int", "bitstr", "vec-depth1", "vec-depth2", "map-depth1", "map-depth2"] {
         if tot.cover.get(&format!("print-read {}", c)) == 0 {
-            machinery_error(&format!("vacuous: C16 print-read never built a {}", c));
+            vacuous(&format!("vacuous: C16 print-read never built a {}", c));
         }
     }
 
